@@ -919,7 +919,8 @@ class Executor:
 
         old = sys.stdout, sys.stderr, sys.argv, os.getcwd()
         sys.stdout, sys.stderr = Recorder(out, "o"), Recorder(out, "e")
-        sys.argv = ["norminette"] + list(op["argv"])
+        # "<root>" in an argument stands for the absolute path of the scenario's tree (known only once the tree exists)
+        sys.argv = ["norminette"] + [a.replace("<root>", self.scratch) if (self.scratch and isinstance(a, str)) else a for a in op["argv"]]
         if self.scratch:
             os.chdir(os.path.join(self.scratch, op.get("cwd", ".")))
         self.arm_wall()
